@@ -4,6 +4,7 @@ import (
 	"bytes"
 	"fmt"
 
+	"go.sia.tech/core/consensus"
 	"go.sia.tech/core/gateway"
 	"go.sia.tech/core/types"
 	"go.sia.tech/coreutils/chain"
@@ -155,6 +156,15 @@ func AuditNode(n *kit.Node, floor uint64) error {
 	}
 	if base == nil || base.Ledger == nil {
 		return fmt.Errorf("audit: no valid tree block at the checkpoint height %d below %v", floor, tip)
+	}
+	// the checkpoint block itself: a v2 id does not bind every field (miner
+	// payout value, v2 height), so what the node holds under that id must be the
+	// chain's block byte for byte and valid on its parent state
+	if cb, ok := n.CM.Block(base.ID); !ok {
+		return fmt.Errorf("audit: the checkpoint block %v is not served", base.Index())
+	} else if !bytes.Equal(refl.Enc(types.V2Block(cb)), refl.Enc(types.V2Block(base.Block))) {
+		verdict := consensus.ValidateBlock(base.Parent.Ledger.State, cb, consensus.V1BlockSupplement{Transactions: make([]consensus.V1TransactionSupplement, len(cb.Transactions))})
+		return fmt.Errorf("audit: the node's checkpoint block %v differs from the chain's block with that id (payouts %v vs %v); consensus.ValidateBlock on its parent state: %v", base.Index(), cb.MinerPayouts, base.Block.MinerPayouts, verdict)
 	}
 	l := base.Ledger
 	for h := floor + 1; h <= tip.Height; h++ {
